@@ -6,11 +6,77 @@
 
 #include <rapidcheck.h>
 
+#include <cerrno>
 #include <new>
+
+#if defined(__SANITIZE_ADDRESS__)
+#include <sanitizer/lsan_interface.h>
+#define XSV_HAVE_LSAN 1
+#else
+#define XSV_HAVE_LSAN 0
+#endif
 
 #include "xsv.hpp"
 
 using namespace xsv;
+
+// ---------------------------------------------------------------- which blocks does the allocator still hold?
+// Plain build: posix_memalign and free (the two libc entry points aligned_allocator uses on this platform) are interposed
+// and forwarded to glibc's __libc_* entry points; every block obtained through posix_memalign is remembered until it is
+// freed.  After a history has passed each of its blocks to deallocate, the number of remembered blocks must be what it was
+// before the history.  (The AddressSanitizer build cannot interpose - it has its own interceptors - and asks LeakSanitizer.)
+#if !XSV_HAVE_LSAN
+extern "C" void* __libc_memalign(size_t, size_t);
+extern "C" void __libc_free(void*);
+namespace
+{
+    const size_t kTrack = 1u << 15;
+    void* g_tracked[kTrack];
+    size_t g_ntracked = 0;
+    inline size_t th(void* p) { return (size_t)(((uintptr_t)p >> 3) * 0x9e3779b97f4a7c15ull >> 40) & (kTrack - 1); }
+    inline void track_add(void* p)
+    {
+        if (g_ntracked * 2 >= kTrack)
+            return; // table half full: stop remembering rather than degrade (the count check then sees fewer, never more)
+        size_t i = th(p);
+        while (g_tracked[i] && g_tracked[i] != (void*)1)
+            i = (i + 1) & (kTrack - 1);
+        g_tracked[i] = p;
+        ++g_ntracked;
+    }
+    inline void track_remove(void* p)
+    {
+        size_t i = th(p);
+        for (size_t k = 0; k < kTrack && g_tracked[i]; ++k, i = (i + 1) & (kTrack - 1))
+            if (g_tracked[i] == p)
+            {
+                g_tracked[i] = (void*)1; // tombstone
+                --g_ntracked;
+                return;
+            }
+    }
+}
+extern "C" int posix_memalign(void** pp, size_t al, size_t sz)
+{
+    if (al < sizeof(void*) || (al & (al - 1)))
+        return EINVAL;
+    void* p = __libc_memalign(al, sz);
+    if (!p)
+        return ENOMEM;
+    *pp = p;
+    track_add(p);
+    return 0;
+}
+extern "C" void free(void* p)
+{
+    if (p)
+        track_remove(p);
+    __libc_free(p);
+}
+static size_t held_blocks() { return g_ntracked; }
+#else
+static size_t held_blocks() { return 0; }
+#endif
 
 struct S24
 {
@@ -150,6 +216,7 @@ static std::string history_tokens(const std::vector<Cmd>& h)
 // runs a history; returns "" if every invariant held, else the failure description
 static std::string run_history(Context& cx, const std::vector<Cmd>& h, bool* nontrivial)
 {
+    const size_t held_before = held_blocks();
     std::vector<Block> live;
     std::string fail;
     size_t max_live = 0;
@@ -233,6 +300,15 @@ static std::string run_history(Context& cx, const std::vector<Cmd>& h, bool* non
             fail = "contents of a live block changed";
         kInst[b.inst].dealloc(b.p, b.n);
     }
+    live.clear();
+    if (fail.empty() && held_blocks() != held_before)
+        fail = std::to_string((long long)held_blocks() - (long long)held_before) + " block(s) obtained from allocate are still held after every block of the history was passed to deallocate exactly once";
+#if XSV_HAVE_LSAN
+    // every block of the history has been passed to deallocate exactly once: nothing obtained through the allocator may
+    // still be held (AddressSanitizer build only; LeakSanitizer scans for unreachable blocks now, not at process exit)
+    if (fail.empty() && __lsan_do_recoverable_leak_check())
+        fail = "a block obtained from allocate is still held after it was passed to deallocate (LeakSanitizer reports a leak at the end of the history)";
+#endif
     *nontrivial = max_live >= 2 && (non_lifo || odd_size);
     return fail;
 }
